@@ -124,6 +124,37 @@ fn t_case<F: PrimeField>(ctx: &mut Ctx, field: &str, rng: &mut ChaCha20Rng, heav
     }
 }
 
+/// Distances for which the real quotient (lambda+1) / -log2(1 - d/2) lies a hair above or below an integer k:
+/// rounding the column count the wrong way there opens one column too few (or too many). The distance is the
+/// 53-bit rational closest to 2*(1 - 2^(-(lambda+1)/(k + eps))); the exact oracle decides for that rational.
+fn t_near_integer(ctx: &mut Ctx, rng: &mut ChaCha20Rng) {
+    type F = ark_bls12_381::Fr;
+    let lam = 1 + (rng.next_u32() % 128);
+    let k = lam as u64 + 2 + rng.next_u64() % (12 * lam as u64 + 40);
+    let e = 6 + (rng.next_u32() % 9); // |eps| = 10^-6 .. 10^-14
+    let eps = if rng.next_u32() % 2 == 0 { 1.0 } else { -1.0 } * 10f64.powi(-(e as i32));
+    let x = k as f64 + eps;
+    let a = (-(lam as f64 + 1.0) / x).exp2();
+    let d1: usize = 1 << 53;
+    let d0 = ((2.0 * (1.0 - a)) * d1 as f64).round() as usize;
+    if d0 == 0 || d0 > d1 {
+        return ctx.skipped("calculate-t-minimal[quotient-near-an-integer]", "distance out of range");
+    }
+    let n = k + 1000;
+    let res = crate::rt::guard(|| verif_calculate_t::<F>(lam as usize, (d0, d1), n as usize));
+    let res: Result<usize, String> = match res {
+        Ok(Ok(t)) => Ok(t),
+        Ok(Err(e)) => Err(format!("{:?}", e)),
+        Err(p) => Err(format!("panic: {}", p)),
+    };
+    let (ag, why) = agrees(&res, (d0, d1), n, lam, &modulus::<F>());
+    let desc = json!({"lambda": lam, "distance": [d0, d1], "n": n, "target_quotient": format!("{} {} 1e-{}", k, if eps > 0.0 { "+" } else { "-" }, e)});
+    // the library evaluates the bound in double precision (relative error about q^2 * 1e-16 / lambda on the quotient q,
+    // i.e. up to a few 1e-12 here): quotients closer to an integer than 1e-10 are tallied separately (finding F14)
+    let class = if e <= 10 { "calculate-t-minimal[quotient-near-an-integer]" } else { "calculate-t-minimal[quotient-within-1e-10-of-an-integer]" };
+    ctx.check(ag == Agree::Yes, class, "calculate_t", desc, || json!({"library": format!("{:?}", res), "exact_oracle": why}));
+}
+
 /// honest proofs: number and positions of opened columns
 fn proof_case<S, L>(ctx: &mut Ctx, ck: CkOf<S>, cfg: &Cfg, label: &str, rng: &mut ChaCha20Rng)
 where
@@ -315,6 +346,7 @@ pub fn run(ctx: &mut Ctx) {
     ctx.run_cases("calculate_t/jubjub-fr", n / 8, |ctx, _i, rng| t_case::<JFr>(ctx, "jubjub Fr (252 bit)", rng, false));
     ctx.run_cases("calculate_t/bls12-381-fq", n / 8, |ctx, _i, rng| t_case::<ark_bls12_381::Fq>(ctx, "bls12-381 Fq (381 bit)", rng, false));
     ctx.run_cases("calculate_t/brakedown-distance", (n / 400).max(8), |ctx, _i, rng| t_case::<ark_bls12_381::Fr>(ctx, "bls12-381 Fr (255 bit)", rng, true));
+    ctx.run_cases("calculate_t/near-integer-quotient", (n / 40).max(50), |ctx, _i, rng| t_near_integer(ctx, rng));
     let m = ctx.n(80, 1600);
     ctx.run_cases("ligero-uni", m, |ctx, _i, rng| ligero_uni(ctx, rng));
     ctx.run_cases("ligero-ml", m / 2, |ctx, _i, rng| ligero_ml(ctx, rng));
